@@ -27,7 +27,10 @@ pub fn expected_trace(r: &RunResult, printed: &Printed) -> Result<Trace, String>
     let terminal = match &r.stop {
         None => Terminal::Ok,
         Some(Stop::AssertFailed) => Terminal::AssertFailed,
-        Some(Stop::Unreachable(uid)) => Terminal::Unreachable(*printed.unreachable_lines.get(uid).unwrap_or(&0) as u64),
+        Some(Stop::Unreachable(uid)) => match printed.unreachable_lines.get(uid) {
+            Some(l) if *l == usize::MAX => return Err("ref-unreachable-written-twice".into()),
+            l => Terminal::Unreachable(*l.unwrap_or(&0) as u64),
+        },
         Some(Stop::Budget(w)) => return Err(format!("ref-budget-{}", w)),
         Some(Stop::Dyn(k, what)) => return Err(format!("ref-dynerror-{}:{}", k, what)),
     };
